@@ -22,11 +22,13 @@ deriving Repr
 inductive Msg
   | voteReq (cand term lastIdx lastTerm : Nat)
   | voteResp (voter cand term : Nat) (granted : Bool)
+  | ae (ldr term prevIdx prevTerm : Nat) (es : List Entry)
 deriving DecidableEq, Repr
 
 structure Ghost where
   grants  : List (Nat × Nat × Nat) := []          -- (voter, term, cand)
   elected : List (Nat × Nat × List Nat) := []     -- (term, leader, tallied voters)
+  tl      : Nat → List Entry := fun _ => []       -- term log: the log of the leader of that term
 
 structure Sys where
   nodes : Nat → Node
@@ -55,6 +57,39 @@ def handleVote (nd : Node) (c t li lt : Nat) (stage : Nat) : Node × Bool :=
     | 1 => ({ nd1 with voteTerm := t }, false)
     | _ => ({ nd1 with voteTerm := t, voteCand := some c }, true)
 
+/-- term of the entry at 1-based index `i` (0 for index 0 or out of range) -/
+def termAt (l : List Entry) (i : Nat) : Nat :=
+  match i with
+  | 0 => 0
+  | k + 1 => match l[k]? with | some e => e.term | none => 0
+
+/-- hashicorp follower merge on the suffix after the previous entry: skip entries whose stored
+    term equals the sent term, on the first term conflict drop the rest of the stored suffix and
+    append the rest of the sent entries, keep the stored suffix if the sent entries run out. -/
+def mergeSuffix : List Entry → List Entry → List Entry
+  | suf, [] => suf
+  | [], es => es
+  | x :: suf, e :: es => if x.term = e.term then x :: mergeSuffix suf es else e :: es
+
+/-- the suffix surviving only the truncation half of the merge (crash before StoreLogs) -/
+def truncSuffix : List Entry → List Entry → List Entry
+  | suf, [] => suf
+  | [], _ => []
+  | x :: suf, e :: es => if x.term = e.term then x :: truncSuffix suf es else []
+
+/-- AppendEntries handler on the log part. `stage = 0`: crash after DeleteRange, before StoreLogs. -/
+def handleAE (nd : Node) (t prevIdx prevTerm : Nat) (es : List Entry) (stage : Nat) : Node × Bool :=
+  if t < nd.term then (nd, false) else
+  let nd1 : Node := if nd.term < t ∨ nd.role ≠ .follower
+                    then { nd with term := t, role := .follower, tally := [] } else nd
+  if prevIdx ≠ 0 ∧ (nd1.log.length < prevIdx ∨ termAt nd1.log prevIdx ≠ prevTerm) then (nd1, false)
+  else
+    let pre := nd1.log.take prevIdx
+    let suf := nd1.log.drop prevIdx
+    match stage with
+    | 0 => ({ nd1 with log := pre ++ truncSuffix suf es }, false)
+    | _ => ({ nd1 with log := pre ++ mergeSuffix suf es }, true)
+
 inductive Label
   | timeout (i : Nat)
   | timeoutCrash (i k : Nat)
@@ -62,6 +97,9 @@ inductive Label
   | voteResp (i v t : Nat)
   | crash (i : Nat)
   | dup (m : Msg)
+  | append (i p : Nat)
+  | sendAE (i prevIdx len : Nat)
+  | recvAE (j ldr t prevIdx prevTerm : Nat) (es : List Entry) (stage : Nat)
 
 def enabled (n : Nat) (s : Sys) : Label → Prop
   | .timeout i => i < n
@@ -71,6 +109,9 @@ def enabled (n : Nat) (s : Sys) : Label → Prop
       (s.nodes i).role = .candidate ∧ (s.nodes i).term = t
   | .crash i => i < n
   | .dup m => m ∈ s.net
+  | .append i _ => i < n ∧ (s.nodes i).role = .leader
+  | .sendAE i prevIdx _ => i < n ∧ (s.nodes i).role = .leader ∧ prevIdx ≤ (s.nodes i).log.length
+  | .recvAE j ldr t prevIdx prevTerm es _ => j < n ∧ Msg.ae ldr t prevIdx prevTerm es ∈ s.net
 
 def apply (n : Nat) (s : Sys) : Label → Sys
   | .timeout i =>
@@ -94,10 +135,23 @@ def apply (n : Nat) (s : Sys) : Label → Sys
       let nd := s.nodes i
       let tl := if v ∈ nd.tally then nd.tally else v :: nd.tally
       let won := decide (quorum n ≤ tl.length)
-      { (setNode s i { nd with tally := tl, role := if won then .leader else .candidate }) with
-        ghost := if won then { s.ghost with elected := (t, i, tl) :: s.ghost.elected } else s.ghost }
+      let lg := if won then nd.log ++ [⟨t, 0⟩] else nd.log          -- the new leader's no-op
+      { (setNode s i { nd with tally := tl, role := if won then .leader else .candidate, log := lg }) with
+        ghost := if won then { s.ghost with elected := (t, i, tl) :: s.ghost.elected,
+                                            tl := fun u => if u = t then lg else s.ghost.tl u }
+                 else s.ghost }
   | .crash i => setNode s i { (s.nodes i) with role := .follower, tally := [] }
   | .dup m => { s with net := m :: s.net }
+  | .append i p =>
+      let nd := s.nodes i
+      let lg := nd.log ++ [⟨nd.term, p⟩]
+      { (setNode s i { nd with log := lg }) with
+        ghost := { s.ghost with tl := fun u => if u = nd.term then lg else s.ghost.tl u } }
+  | .sendAE i prevIdx len =>
+      let nd := s.nodes i
+      { s with net := Msg.ae i nd.term prevIdx (termAt nd.log prevIdx) ((nd.log.drop prevIdx).take len) :: s.net }
+  | .recvAE j _ t prevIdx prevTerm es stage =>
+      setNode s j (handleAE (s.nodes j) t prevIdx prevTerm es stage).1
 
 def Step (n : Nat) (s s' : Sys) : Prop := ∃ l, enabled n s l ∧ s' = apply n s l
 
